@@ -234,10 +234,49 @@ func extractUnpicklerCases(p *core.Prog, fn *ssa.Function) (cases map[string]*un
 			}
 		case *ssa.Call:
 			// the whole argument tuple is consumed: passed on (append(..., args...), a helper) in this case
-			for _, a := range x.Call.Args {
+			for ai, a := range x.Call.Args {
 				if core.Unwrap(a) == ssa.Value(argsP) {
 					if b, isB := x.Call.Value.(*ssa.Builtin); isB && (b.Name() == "len" || b.Name() == "cap") {
 						continue
+					}
+					// a per-kind helper of the package that is handed the tuple (unpickleFunction(args)): its arity test
+					// and its constant indexes are those of the case
+					if h := core.Callee(x); h != nil && h.Blocks != nil && h.Pkg == fn.Pkg && ai < len(h.Params) {
+						hp := h.Params[ai]
+						found := false
+						core.Instrs(h, func(hin ssa.Instruction) {
+							switch y := hin.(type) {
+							case *ssa.BinOp:
+								if y.Op != token.NEQ && y.Op != token.EQL {
+									return
+								}
+								c, ok := stripConv(y.X).(*ssa.Call)
+								if !ok {
+									return
+								}
+								if bi, ok := c.Call.Value.(*ssa.Builtin); !ok || bi.Name() != "len" || c.Call.Args[0] != ssa.Value(hp) {
+									return
+								}
+								if n, ok := core.ConstInt(y.Y); ok {
+									found = true
+									for _, uc := range caseOf(in) {
+										uc.Arity = int(n)
+									}
+								}
+							case *ssa.IndexAddr:
+								if y.X == ssa.Value(hp) {
+									if k, ok := core.ConstInt(y.Index); ok {
+										found = true
+										for _, uc := range caseOf(in) {
+											uc.Indexes[k] = true
+										}
+									}
+								}
+							}
+						})
+						if found {
+							continue
+						}
 					}
 					for _, uc := range caseOf(in) {
 						uc.Whole = true
@@ -637,36 +676,53 @@ func checkModuleTuple(p *core.Prog, r *core.Result, unpicklers []*ssa.Function) 
 			}
 			return isExtractOfAssert(v)
 		}
-		core.Instrs(up, func(in ssa.Instruction) {
-			switch x := in.(type) {
-			case *ssa.IndexAddr:
-				if _, isParam := x.X.(*ssa.Parameter); isParam {
-					return
+		// the unpickler and the per-kind helpers of its package it hands its argument tuple to
+		scan := []*ssa.Function{up}
+		if len(up.Params) >= 3 {
+			for _, c := range core.Calls(up) {
+				h := core.Callee(c)
+				if h == nil || h.Blocks == nil || h.Pkg != up.Pkg || h == up {
+					continue
 				}
-				if kk, ok := core.ConstInt(x.Index); ok && isAsserted(x.X) {
-					idx[kk] = true
-				}
-			case *ssa.Call:
-				// the asserted tuple handed to a helper of the module: constant indexes on the corresponding parameter
-				h := core.Callee(x)
-				if h == nil || !core.InModule(h) || h.Blocks == nil {
-					return
-				}
-				for ai, a := range x.Call.Args {
-					if !isAsserted(a) || ai >= len(h.Params) {
-						continue
+				for _, a := range c.Common().Args {
+					if core.Unwrap(a) == ssa.Value(up.Params[2]) {
+						scan = append(scan, h)
 					}
-					prm := h.Params[ai]
-					core.Instrs(h, func(hin ssa.Instruction) {
-						if ia, ok := hin.(*ssa.IndexAddr); ok && ia.X == ssa.Value(prm) {
-							if kk, ok := core.ConstInt(ia.Index); ok {
-								idx[kk] = true
-							}
-						}
-					})
 				}
 			}
-		})
+		}
+		for _, scanFn := range scan {
+			core.Instrs(scanFn, func(in ssa.Instruction) {
+				switch x := in.(type) {
+				case *ssa.IndexAddr:
+					if _, isParam := x.X.(*ssa.Parameter); isParam {
+						return
+					}
+					if kk, ok := core.ConstInt(x.Index); ok && isAsserted(x.X) {
+						idx[kk] = true
+					}
+				case *ssa.Call:
+					// the asserted tuple handed to a helper of the module: constant indexes on the corresponding parameter
+					h := core.Callee(x)
+					if h == nil || !core.InModule(h) || h.Blocks == nil {
+						return
+					}
+					for ai, a := range x.Call.Args {
+						if !isAsserted(a) || ai >= len(h.Params) {
+							continue
+						}
+						prm := h.Params[ai]
+						core.Instrs(h, func(hin ssa.Instruction) {
+							if ia, ok := hin.(*ssa.IndexAddr); ok && ia.X == ssa.Value(prm) {
+								if kk, ok := core.ConstInt(ia.Index); ok {
+									idx[kk] = true
+								}
+							}
+						})
+					}
+				}
+			})
+		}
 		missing := []string{}
 		for i := 0; i < k; i++ {
 			if !idx[int64(i)] {
